@@ -379,7 +379,7 @@ fn c19_writer_check(k: usize) -> WRun {
 fn writer_covers(o: &WRun) {
     kani::cover!(o.err && o.by_instances, "OutOfResources for max_instances taken");
     kani::cover!(o.err && o.by_spi && !o.by_total, "OutOfResources for max_samples_per_instance taken");
-    kani::cover!(o.err && o.by_total && !o.by_spi && !o.new_instance, "OutOfResources for max_samples taken");
+    kani::cover!(o.err && o.by_total, "OutOfResources with max_samples reached taken");
     kani::cover!(!o.err && o.new_instance, "write of a new instance accepted");
     kani::cover!(!o.err && !o.new_instance, "write of a registered instance accepted");
 }
@@ -403,7 +403,7 @@ fn c19_reader_limits_keep_all_n1() {
     reader_covers(&o);
 }
 
-// @check props=C19 tier=quick
+// @check props=C19 tier=thorough
 // @desc Reader, KEEP_ALL, BY_RECEPTION_TIMESTAMP, exactly 2 stored sample(s): after one real add_reader_change the cache is within max_samples / max_instances / max_samples_per_instance; Rejected(instance, reason) carries the instance of the change and a reason whose limit is reached, and then the sample list is untouched; a change whose storing would exceed a limit is Rejected (never stored, never silently dropped); all three rejection reasons are witnessed.
 // @bounds exactly 2 stored sample(s), KEEP_ALL, BY_RECEPTION_TIMESTAMP, 2 instance handles (both registered), 2 writers, each resource limit in {1,2,3,unlimited} (QoS consistent), all 5 change kinds, source timestamps None or sec 0..4 x nanosec {0, 5*10^8}, symbolic sample/view/instance states, generation counts 0..2, instance_ownership empty; unwind 6
 // @assume pre-state satisfies the representation invariant R1-R3, the KEEP_LAST invariant and the resource-limit invariant (all re-asserted after the step)
@@ -527,40 +527,6 @@ fn c19_reader_limits_keep_last_n2() {
 }
 
 // @check props=C19 tier=thorough
-// @desc Reader, KEEP_LAST(1..=3), BY_RECEPTION_TIMESTAMP, exactly 3 stored sample(s): after one real add_reader_change the cache is within max_samples / max_instances / max_samples_per_instance; Rejected(instance, reason) carries the instance of the change and a reason whose limit is reached, and then the sample list is untouched; a change whose storing would exceed a limit is Rejected (never stored, never silently dropped); all three rejection reasons are witnessed.
-// @bounds exactly 3 stored sample(s), KEEP_LAST(1..=3), BY_RECEPTION_TIMESTAMP, 2 instance handles (both registered), 2 writers, each resource limit in {1,2,3,unlimited} (QoS consistent), all 5 change kinds, source timestamps None or sec 0..4 x nanosec {0, 5*10^8}, symbolic sample/view/instance states, generation counts 0..2, instance_ownership empty; unwind 6
-// @assume pre-state satisfies the representation invariant R1-R3, the KEEP_LAST invariant and the resource-limit invariant (all re-asserted after the step)
-// @assume DataReaderQos::is_consistent() holds; ownership SHARED; time-based filter off (minimum_separation 0)
-// @assume counting convention of the implementation: max_samples counts ALIVE samples, max_samples_per_instance all samples of the instance, max_instances instances with a stored sample
-// @assume <InstanceHandle as PartialEq>::eq replaced by the loop-free handle_eq_stub (equivalence: c18_handle_eq_stub_is_equivalent)
-// @enc dcps::dcps_domain_participant::data_reader_entity::DataReaderEntity::add_reader_change
-#[kani::proof]
-#[kani::unwind(6)]
-#[kani::solver(minisat)]
-#[kani::stub(<crate::infrastructure::instance::InstanceHandle as HandlePartialEq<crate::infrastructure::instance::InstanceHandle>>::eq, super::support_reader::handle_eq_stub)]
-fn c19_reader_limits_keep_last_n3() {
-    let o = c19_reader_check(&plain(3), Hist::KeepLast, BY_RECEPTION);
-    reader_covers(&o);
-}
-
-// @check props=C19 tier=thorough
-// @desc Reader, KEEP_ALL, BY_SOURCE_TIMESTAMP, exactly 2 stored sample(s): after one real add_reader_change the cache is within max_samples / max_instances / max_samples_per_instance; Rejected(instance, reason) carries the instance of the change and a reason whose limit is reached, and then the sample list is untouched; a change whose storing would exceed a limit is Rejected (never stored, never silently dropped); all three rejection reasons are witnessed.
-// @bounds exactly 2 stored sample(s), KEEP_ALL, BY_SOURCE_TIMESTAMP, 2 instance handles (both registered), 2 writers, each resource limit in {1,2,3,unlimited} (QoS consistent), all 5 change kinds, source timestamps None or sec 0..4 x nanosec {0, 5*10^8}, symbolic sample/view/instance states, generation counts 0..2, instance_ownership empty; unwind 6
-// @assume pre-state satisfies the representation invariant R1-R3, the KEEP_LAST invariant and the resource-limit invariant (all re-asserted after the step)
-// @assume DataReaderQos::is_consistent() holds; ownership SHARED; time-based filter off (minimum_separation 0)
-// @assume counting convention of the implementation: max_samples counts ALIVE samples, max_samples_per_instance all samples of the instance, max_instances instances with a stored sample
-// @assume <InstanceHandle as PartialEq>::eq replaced by the loop-free handle_eq_stub (equivalence: c18_handle_eq_stub_is_equivalent)
-// @enc dcps::dcps_domain_participant::data_reader_entity::DataReaderEntity::add_reader_change
-#[kani::proof]
-#[kani::unwind(6)]
-#[kani::solver(minisat)]
-#[kani::stub(<crate::infrastructure::instance::InstanceHandle as HandlePartialEq<crate::infrastructure::instance::InstanceHandle>>::eq, super::support_reader::handle_eq_stub)]
-fn c19_reader_limits_source_order_n2() {
-    let o = c19_reader_check(&plain(2), Hist::KeepAll, BY_SOURCE);
-    reader_covers(&o);
-}
-
-// @check props=C19 tier=thorough
 // @desc Writer, two registered instances (0..3 samples each) and a third new one: one real DataWriterEntity::write_w_timestamp (instance handle and serialized payload passed directly, no DynamicData) for a registered instance or a new one: Err(OutOfResources) exactly when max_instances (new instance), max_samples_per_instance (KEEP_ALL) or max_samples is reached; a refused write stores nothing (no sample, no sequence number, no transport change, no instance); an accepted write records exactly one sample, takes the next sequence number and hands one change to the transport writer. Outside the trigger of KF-C19-1.
 // @bounds 2 registered instances (+1 new), 0..=3 samples each, history KEEP_ALL or KEEP_LAST(1..=3), each resource limit in {1,2,3,unlimited} (QoS consistent); unwind 6
 // @assume writer bookkeeping within the limits before the call (re-asserted after it); DataWriterQos::is_consistent()
@@ -576,6 +542,7 @@ fn c19_reader_limits_source_order_n2() {
 fn c19_writer_limits_k2__rest() {
     let o = c19_writer_check(2);
     writer_covers(&o);
+    kani::cover!(o.err && o.by_total && !o.by_spi && !o.by_instances, "OutOfResources for max_samples alone taken");
 }
 
 // @check props=C19 tier=thorough
